@@ -519,9 +519,23 @@ protected:
                  *m_memoryManager);
         }
 
-        m_entries.splice(m_entries.end(), m_freeEntries, --m_freeEntries.end());
+        // Add the new entry to its bucket before moving it to the
+        // list of entries.  That way, if growing the bucket fails,
+        // the map is unchanged, instead of containing an entry that
+        // is not in any bucket and is not counted in the size.
+        try
+        {
+            m_buckets[index].push_back(--m_freeEntries.end());
+        }
+        catch(...)
+        {
+            newEntry.value->~value_type();
+            newEntry.erased = true;
 
-        m_buckets[index].push_back(--m_entries.end());
+            throw;
+        }
+
+        m_entries.splice(m_entries.end(), m_freeEntries, --m_freeEntries.end());
 
         ++m_size;
 
